@@ -263,6 +263,10 @@ func buildMaybeStaged(r *gen.RNG, a *ref.Packet) (mq.Packet, error, string) {
 		p, err := bind.BuildStaged(a, r.Intn(len(a.Props)), func(p mq.Packet) { observe(r, p) })
 		return p, err, "staged"
 	}
+	if a.Type == ref.TConnect && a.HasWill() && r.Chance(1, 3) {
+		p, err := bind.BuildReplacingWill(a, byte(r.Intn(3)), r.Bool())
+		return p, err, "will-replaced"
+	}
 	p, err := bind.Build(a)
 	return p, err, "direct"
 }
